@@ -11,10 +11,11 @@
   * addon_edit_is_what_is_sent       the content an addon leaves in messages[-1] is what is recorded and sent
   * inject_is_spoofed_data           an injected message is handled exactly like received data
   * half_close_propagated_while_other_direction_flows
+  * half_close_emitted_once_quiescent (covers ConnectionClosed events buffered behind pending hooks)
   * full_close_only_when_ending / tcp_ends_only_when_both_directions_closed
   * at_most_one_end_or_error, exactly_one_end_or_error, connect_failure_fires_error
   * nothing_relayed_after_end
-  * ignore_mode_fires_no_hooks
+  * ignore_mode_fires_no_end_or_error_hook
 -/
 import MitmVerif.Lemmas.C29
 namespace MitmVerif.Props.C29
@@ -145,6 +146,19 @@ theorem half_close_propagated_while_other_direction_flows (f c : Bool) (ins : Li
       · rename_i h; simp [a] at h
       · cases s <;> cases e <;> simp [c', Side.other, drain, editMsg]
 
+/-- **Half-close, also across the pause queue.**  Whenever the TCP relay is still running and is not waiting for a
+    reply, every side that can no longer be read has had the half-close of the opposite connection yielded —
+    no matter whether its `ConnectionClosed` was handled at once or had been buffered behind hooks. -/
+theorem half_close_emitted_once_quiescent (f c : Bool) (ins : List Input) (s : Side)
+    (hph : (run (init .tcp f c) ins).phase = .relay) (hp : (run (init .tcp f c) ins).pending = .none)
+    (hr : ((run (init .tcp f c) ins).conn s).canRead = false) :
+    Output.close s.other true ∈ (run (init .tcp f c) ins).trace := by
+  obtain ⟨hF, hH⟩ := full2_run _ ins (full2_init .tcp f c)
+  have hq := hF.2.2 hp
+  rcases hH (reach_proto .tcp f c ins) hph s hr with hm | hm
+  · rw [hq] at hm; cases hm
+  · exact hm
+
 /-- **No full close while relaying.**  As long as the layer has not entered `done`, it has never yielded a
     full `CloseConnection` — the only close commands of a running relay are half-closes. -/
 theorem full_close_only_when_ending (p : Proto) (f c : Bool) (ins : List Input) (s : Side)
@@ -256,8 +270,8 @@ theorem nothing_relayed_after_end (p : Proto) (f c : Bool) (ins : List Input)
       · exact ih h.2 x hx
   exact key post hs.2.2
 
-/-- with `ignore=True` (no flow object) no hook of any kind is ever fired -/
-theorem ignore_mode_fires_no_hooks (p : Proto) (c : Bool) (ins : List Input) :
+/-- with `ignore=True` (no flow object) neither an end nor an error hook is ever fired -/
+theorem ignore_mode_fires_no_end_or_error_hook (p : Proto) (c : Bool) (ins : List Input) :
     (run (init p false c) ins).trace.countP isEndOrError = 0 := by
   have hI := (reach p false c ins).1
   unfold TrInv at hI
@@ -277,6 +291,11 @@ example : (run (init .tcp true false)
 /-- hypotheses of `half_close_propagated_while_other_direction_flows` hold in a reachable state -/
 example : let st := run (init .tcp true true) [.start, .hookDone none]
     st.phase = .relay ∧ st.pending = .none ∧ (st.conn Side.client.other).canRead = true := by decide
+
+/-- `half_close_emitted_once_quiescent` on a run where the client's close was buffered behind a message hook -/
+example : let st := run (init .tcp true true) [.start, .hookDone none, .data .client [1], .closed .client false, .hookDone none]
+    st.phase = .relay ∧ st.pending = .none ∧ (st.conn .client).canRead = false ∧
+    st.trace = [.hook .start, .hook (.message true [1]), .send .server [1], .close .server true] := by decide
 
 /-- hypotheses of `exactly_one_end_or_error` hold (TCP, both sides closed, end hook completed) -/
 example : let st := run (init .tcp true true) [.start, .hookDone none, .closed .client false, .closed .server false, .hookDone none]
